@@ -1,14 +1,22 @@
 """C07 — gate modifiers (dagger, controlled, power, exp) mean what they say.
 
-A case is a base gate plus a chain of modifier METHOD calls applied one after the other:
-  {"kind": "chain"|"malformed", "base": <base spec>, "chain": [["dagger"], ["controlled", n], ["power", "p/q"], ["exp"],
-                                                      ["replace", [params]] ...]}
+A RUN is a base gate plus a chain of modifier METHOD calls applied one after the other:
+  {"base": <base spec>, "chain": [["dagger"], ["controlled", n], ["power", "p/q"(, "f")], ["exp"], ["replace", [params]] ...],
+   "order": "fwd"|"rev", "share": "none"|"base"|"all", "reread": bool, "decoy": bool, "recheck": bool}      (see `run_one`)
 base spec:  {"gate": NAME, "params": [[ch, sh], ...]}                       built-in at rational half-angle points
             {"custom": name, "rows": [[entry]], "nsyms": k, "params": [{"v": [re, im]}, ...]}
                                                                             entry = [re, im] constant | {"sym": i}
+A CASE is either one run ({"kind": "chain"|"malformed"|"exotic"|"special", ...run fields}) or a SESSION
+({"kind": "session"|"session-ext", "runs": [run, ...]}): several runs executed one after the other in the same process on shared
+prototypes / gate definitions / (per `share`) gate objects.  Sessions exist because the property quantifies over gates, i.e.
+values: whatever the library remembers between calls (module-level or per-object caches, shared result objects, objects updated
+in place) must not change what a gate reports.  The sibling runs of a session differ in exactly one component, so a cache key
+that leaves that component out collides.
+
 The implementation is run step by step (real objects of /repo); after every step the object structure, num_qubits, params and
-the numeric matrix are recorded.  The Lean model (`C07 chain`) does the same; sympy's `exp` / non-integer `**` are EXTERNALS of
-the model, supplied to it as a table computed with scipy on the exact argument matrix the model asks for.
+the numeric matrix are recorded; the object the library handed out is then edited in place (result poisoning).  The Lean model
+(`C07 chain`, one request per run) does the same; sympy's `exp` / non-integer `**` are EXTERNALS of the model, supplied to it as
+a table computed with scipy on the exact argument matrix the model asks for.
 """
 import math
 import signal
@@ -22,9 +30,17 @@ from .. import circ
 PROP = "C07"
 RULE = ("random modifier chains (depth 0..4: dagger / controlled(1..3) / integer power -3..3 / power 1/q, q<=4 / exp / "
         "replace_params) over the 27 built-ins at rational half-angle points and over custom gates (Gaussian-integer matrices, "
-        "optionally with symbols); exp and non-integer powers only while the total is <= 2 qubits; plus a malformed stream "
-        "(control counts <= 0, wrong parameter arity, negative powers of singular matrices). non-trivial: chain of >= 2 "
-        "modifiers; distinct = distinct canonical JSON of the case")
+        "optionally with symbols); exp and non-integer powers only while the total is <= 2 qubits; SESSIONS = a seed run, 2-4 "
+        "sibling runs that differ from it in exactly one component (other gate under the same parameters / same custom name with "
+        "one matrix entry changed / one parameter changed, negated, shifted by 2 pi or by a relative 1e-6 / one modifier argument "
+        "changed / one modifier inserted, removed, exchanged / int exponent handed over as float) and the seed run again, all in "
+        "one process on shared prototypes, definitions and (share=base|all) gate objects, matrices read stepwise (fwd) or only "
+        "after all gates were made, outermost first (rev), optional decoy call of the same method with another argument before "
+        "every modifier call; every matrix the library returns is edited in place after it was recorded and the last (or every) "
+        "matrix is asked for again; EXOTIC = exponents up to +-12, integer exponents as floats, 4..5 controls, roots 1/5..1/16; "
+        "SPECIAL = parameters at which the matrix is self-adjoint, replaced by generic ones and back, around a dagger; plus a "
+        "malformed stream (control counts <= 0, wrong parameter arity, negative powers of singular matrices). non-trivial: chain "
+        "of >= 2 modifiers, or a session of >= 3 runs; distinct = distinct canonical JSON of the case")
 TRUSTED = [
     "sympy Matrix.inv: M * inv(M) = 1 (hypothesis `ExtLaws.inv_*`; the model's own inverse is exact Gauss-Jordan over Q(zeta8) and is compared with sympy on every negative power)",
     "sympy M ** (1/q): its q-th power is M (hypothesis `ExtLaws.root`; checked numerically by the oracle on every generated fractional power)",
@@ -35,14 +51,22 @@ TRUSTED = [
 ASSUMPTIONS = [
     "parameters are numbers (no free symbols): Power/Exponential reject symbolic gates in __post_init__, bind is property C06",
     "a gate 'obtained by nesting modifiers' is built by the modifier METHODS (.dagger/.controlled/.power/.exp), not by calling the wrapper class constructors directly",
-    "exponents are Python ints or floats p/q; only integers and unit fractions are in the property's domain",
+    "exponents are Python ints or floats p/q (an integer may arrive as a float, 2.0); only integers and unit fractions are in the property's domain",
+    "a gate is a value: 'its matrix' / 'its parameters' do not depend on which other gates were built or inspected before in the "
+    "same process, on how often they were asked for, or on what the caller did to an earlier answer (this is what the sessions, "
+    "the decoy calls and the in-place edits of returned matrices test; the property's sentences are then evaluated per run)",
+    "two CustomGateDefinitions may carry the same gate_name (legal, though discouraged by the Gate.name docstring)",
+    "the matrix of a BASE gate is not judged by the oracle (that is C02 / C06); a wrong base matrix is visible to the model "
+    "comparison only",
 ]
 
 TOL = 1e-8
-LIMITS = {"quick": 1.0, "thorough": 3.0}
+LIMITS = {"quick": 0.5, "thorough": 3.0}
 _LIMIT = [2.0]
+SESSION_BUDGET = {"quick": 1.5, "thorough": 6.0}  # s of sympy time after which a session's per-matrix limit drops to 0.2 s
 _SUPPRESSED = [0]
-_FLAGS = {}  # canon(case) -> {"ambiguous": bool, "unresolved": bool}
+_EVALS = [0]
+_FLAGS = {}  # canon(run) -> {"ambiguous": bool, "unresolved": bool}
 
 
 # ------------------------------------------------------------------ per-evaluation wall-clock limit
@@ -121,9 +145,9 @@ def build_base(bspec, params=None):
     return custom_definition(bspec)(*vals)
 
 
-def py_exponent(e):
+def py_exponent(e, as_float=False):
     f = unrat(e)
-    return int(f) if f.denominator == 1 else float(f)
+    return int(f) if (f.denominator == 1 and not as_float) else float(f)
 
 
 def apply_mod(g, mod, bspec):
@@ -135,7 +159,7 @@ def apply_mod(g, mod, bspec):
     if t == "controlled":
         return g.controlled(mod[1])
     if t == "power":
-        return g.power(py_exponent(mod[1]))
+        return g.power(py_exponent(mod[1], len(mod) > 2 and mod[2] == "f"))
     if t == "replace":
         return g.replace_params(py_params(bspec, mod[1]))
     raise ValueError(mod)
@@ -194,13 +218,27 @@ def has_fraction(s):
     return False
 
 
+def _poison(m):
+    """the caller edits the object it got back (result poisoning): the gate must answer the same when asked again.
+    Immutable results refuse the edit; that is fine."""
+    try:
+        n = m.shape[0]
+        m[0, 0] = m[0, 0] + 3
+        m[n - 1, 0] = m[n - 1, 0] - 2
+    except Exception:
+        pass
+
+
 def eval_matrix(g, external):
-    """numeric matrix of a real gate (JSON [[ [re, im], …], …]) or an error / timeout marker"""
+    """numeric matrix of a real gate (JSON [[ [re, im], …], …]) or an error / timeout marker.  The object the library
+    returned is converted first and then edited in place (see `_poison`)."""
     import sympy
     from sympy.matrices.common import MatrixError, NonInvertibleMatrixError
+    _EVALS[0] += 1
     try:
         with time_limit(_LIMIT[0]):
-            m = circ.impl_matrix_to_numpy(g.matrix)
+            raw = g.matrix
+            m = circ.impl_matrix_to_numpy(raw)
     except CaseTimeout:
         return {"timeout": True}
     except NonInvertibleMatrixError:
@@ -209,47 +247,201 @@ def eval_matrix(g, external):
         if external:
             return {"exterr": "TypeError"}
         return {"err": "err:type"}
-    except (NotImplementedError, MatrixError, ValueError, ZeroDivisionError, AttributeError, RecursionError) as e:
-        if external:  # failure inside sympy's exp / fractional power routine
+    except (NotImplementedError, MatrixError, ValueError, ZeroDivisionError, AttributeError, RecursionError, IndexError) as e:
+        if external:  # failure inside sympy's exp / fractional power routine (IndexError: jordan_form on a float matrix)
             return {"exterr": type(e).__name__}
         raise
-    return [[[float(x.real), float(x.imag)] for x in row] for row in m.tolist()]
+    out = [[[float(x.real), float(x.imag)] for x in row] for row in m.tolist()]
+    _poison(raw)
+    return out
 
 
-def describe(g, bspec, candidates, skip=False):
+def describe_static(g, bspec, candidates):
     s = struct(g, bspec, candidates)
-    return {"struct": s, "nq": int(g.num_qubits), "params": _match_params(g.params, bspec, candidates),
-            "m": {"timeout": True, "skipped": True} if skip else eval_matrix(g, has_external(s))}
+    return {"struct": s, "nq": int(g.num_qubits), "params": _match_params(g.params, bspec, candidates)}
 
 
-def run_impl(case):
-    _LIMIT[0] = LIMITS.get(case.get("tier", "quick"), 2.0)
-    bspec = case["base"]
-    candidates = [bspec["params"]] + [m[1] for m in case["chain"] if m[0] == "replace"]
-    g = build_base(bspec)
-    steps = [describe(g, bspec, candidates)]
+def _eval_into(d, g, skip=False, reread=False):
+    """fill d["m"] (and d["m2"]: the matrix asked for a second time, after the first answer was edited by the caller)"""
+    if skip:
+        d["m"] = {"timeout": True, "skipped": True}
+        return
+    ext = has_external(d["struct"])
+    d["m"] = eval_matrix(g, ext)
+    if reread and _is_mat(d["m"]):
+        d["m2"] = eval_matrix(g, ext)
+
+
+def _timed_out(d):
+    return isinstance(d.get("m"), dict) and bool(d["m"].get("timeout"))
+
+
+def _prefix_key(bspec, chain, i):
+    return common.canon([bspec, [list(m) for m in chain[:i]]])
+
+
+def _decoy_mod(mod, bspec):
+    """the same modifier method with a DIFFERENT argument (same call for the argument-less ones): made on the same object
+    right before the real call, result thrown away.  A gate is a value: what an earlier call on it returned or left behind
+    must not influence the next call."""
+    t = mod[0]
+    if t in ("dagger", "exp"):
+        return [t]
+    if t == "controlled":
+        return ["controlled", mod[1] + 1] if mod[1] >= 1 else None
+    if t == "power":
+        e = unrat(mod[1])
+        return ["power", rat(e + 1)] if e.denominator == 1 else ["power", rat(Fraction(1, e.denominator + 1))]
+    if t == "replace":
+        ps = [p if isinstance(p, dict) else list(p) for p in mod[1]]
+        if not ps:
+            return ["replace", ps]
+        if "gate" in bspec:
+            if bspec["gate"] == "Delay":
+                ps[0] = [rat(unrat(ps[0][0]) + Fraction(1, 4)), 0]
+            elif unrat(ps[0][1]) != 0:
+                ps[0] = [ps[0][0], rat(-unrat(ps[0][1]))]
+            else:
+                ps[0] = ["3/5", "4/5"] if unrat(ps[0][0]) != Fraction(3, 5) else ["4/5", "3/5"]
+        else:
+            ps[0] = {"v": [rat(unrat(ps[0]["v"][0]) + 1), ps[0]["v"][1]]}
+        return ["replace", ps]
+    return None
+
+
+def _decoy_call(g, mod, bspec, with_matrix):
+    dm = _decoy_mod(mod, bspec)
+    if dm is None:
+        return
+    try:
+        gd = apply_mod(g, dm, bspec)
+    except ValueError:
+        return
+    nq = int(gd.num_qubits)
+    tuple(gd.params)
+    if with_matrix and nq <= 4 and not has_external(struct(gd, bspec, [])):
+        eval_matrix(gd, True)  # looked at (and edited) like any other result; its value is not judged here
+
+
+def run_one(run, tier="quick", shared=None):
+    """one base gate + chain of modifier method calls on the REAL objects.
+
+    order  "fwd": the matrix of every intermediate gate is read right after the gate was made (so every later modifier
+                  is applied to an object whose matrix has already been looked at);
+           "rev": all gates are made first, without any matrix access, then the matrices are read from the outermost
+                  gate inwards.
+    share  "none": every object is made afresh; "base": the base gate object is the one an earlier run of the same
+           session made from the same spec; "all": so is every intermediate gate of an equal chain prefix (the matrices
+           are then read again from the very same long-lived objects).
+    reread  the matrix of every step (not only of the last one) is read twice.
+    decoy   before every modifier call the same method is called on the same object with another argument (`_decoy_mod`).
+    recheck structure / num_qubits / params of every gate made on the way are read once more at the end."""
+    _LIMIT[0] = LIMITS.get(tier, 2.0)
+    bspec, chain = run["base"], run["chain"]
+    order, share = run.get("order", "fwd"), run.get("share", "none")
+    reread_all = bool(run.get("reread"))
+    shared = shared if shared is not None else {}
+    candidates = [bspec["params"]] + [m[1] for m in chain if m[0] == "replace"]
+
+    def obtain(i, make):
+        key = _prefix_key(bspec, chain, i)
+        if (share == "all" or (share == "base" and i == 0)) and key in shared:
+            return shared[key]
+        g = make()
+        shared[key] = g
+        return g
+
+    n = len(chain)
+    g = obtain(0, lambda: build_base(bspec))
+    objs = [g]
+    steps = [describe_static(g, bspec, candidates)]
+    pending = []  # (step record, object, rebuilt object or None) whose matrices are still to be read (rev order)
+
+    slow = shared.setdefault("__slow__", set())  # chain prefixes on which sympy already ran out of time in this session
+    spent = shared.setdefault("__spent__", [0.0])  # seconds of matrix evaluation used by this session so far
+
+    def read(d, obj, h, last, skip=False, idx=0):
+        external = has_external(d["struct"])
+        if any(_prefix_key(bspec, chain, j) in slow for j in range(idx + 1)):
+            skip = True
+        if len(slow) >= 2 or spent[0] > SESSION_BUDGET.get(tier, 3.0):
+            _LIMIT[0] = min(_LIMIT[0], 0.2)  # a session that keeps running into sympy's slow paths is not given more time
+        t_read = time.time()
+        _eval_into(d, obj, skip=skip, reread=(reread_all or (last and not external)))
+        spent[0] += time.time() - t_read
+        if _timed_out(d) and not d["m"].get("skipped"):
+            slow.add(_prefix_key(bspec, chain, idx))
+        if h is not None:
+            d["rebuilt"] = describe_static(h, bspec, candidates)
+            _eval_into(d["rebuilt"], h, skip=_timed_out(d))
+
+    if order == "fwd":
+        read(steps[0], g, None, n == 0)
+    else:
+        pending.append((steps[0], g, None, n == 0, 0))
     applied = []
-    for mod in case["chain"]:
+    for i, mod in enumerate(chain):
+        if run.get("decoy"):
+            _decoy_call(g, mod, bspec, with_matrix=(order == "fwd" and not _timed_out(steps[-1])))
         try:
-            g2 = apply_mod(g, mod, bspec)
+            g2 = obtain(i + 1, lambda: apply_mod(g, mod, bspec))
         except ValueError as e:
             steps.append({"err": "err:value", "msg": str(e)[:80]})
             break
-        # once sympy ran out of time on a prefix, every longer chain contains the same computation: not retried
-        timed_out = isinstance(steps[-1].get("m"), dict) and steps[-1]["m"].get("timeout") and mod[0] != "replace"
-        d = describe(g2, bspec, candidates, skip=bool(timed_out))
+        d = describe_static(g2, bspec, candidates)
+        h = None
         if mod[0] == "replace":
             # the other side of the last sentence: the same modifiers applied to the base built with the new parameters
             h = build_base(bspec, mod[1])
             for m2 in applied:
                 h = apply_mod(h, m2, bspec)
             d["rebuilt_equal"] = bool(g2 == h)
-            d["rebuilt"] = describe(h, bspec, candidates, skip=isinstance(d["m"], dict) and bool(d["m"].get("timeout")))
+            d["rebuilt_equal_rev"] = bool(h == g2)
+            d["rebuilt_unequal"] = bool(g2 != h)
         else:
             applied.append(mod)
+        last = i == n - 1
+        if order == "fwd":
+            # once sympy ran out of time on a prefix, every longer chain contains the same computation: not retried
+            read(d, g2, h, last, skip=_timed_out(steps[-1]) and mod[0] != "replace", idx=i + 1)
+        else:
+            pending.append((d, g2, h, last, i + 1))
         steps.append(d)
+        objs.append(g2)
         g = g2
+    for d, obj, h, last, idx in reversed(pending):
+        read(d, obj, h, last, idx=idx)
+    if run.get("recheck"):
+        # the gates made on the way must still be what they were: structure / num_qubits / params read once more at the end
+        for d, obj in zip(steps, objs):
+            d["static_again"] = describe_static(obj, bspec, candidates)
     return {"steps": steps}
+
+
+def is_session(case):
+    return str(case.get("kind", "")).startswith("session")
+
+
+def case_runs(case):
+    return case["runs"] if is_session(case) else [case]
+
+
+def run_impl(case):
+    tier = case.get("tier", "quick")
+    if not is_session(case):
+        return run_one(case, tier)
+    shared = {}
+    outs = []
+    for run in case["runs"]:
+        try:
+            outs.append(run_one(run, tier, shared))
+        except (CaseTimeout, KeyboardInterrupt):
+            raise
+        except Exception as e:  # judged by the oracle (an implementation that raises on an in-domain input)
+            if type(e).__name__ == "Timeout":
+                raise
+            outs.append({"exc": type(e).__name__, "msg": str(e)[:200]})
+    return {"runs": outs}
 
 
 # ------------------------------------------------------------------ numeric helpers
@@ -277,9 +469,76 @@ def _arity(bspec):
 
 
 # ------------------------------------------------------------------ oracle: the property's sentences on the implementation only
+def _base_label(bspec):
+    if "gate" in bspec:
+        return f"{bspec['gate']}{bspec['params']}"
+    return f"custom {bspec['custom']} rows={bspec['rows']} params={bspec['params']}"
+
+
 def oracle(case, out):
+    if not is_session(case):
+        return _oracle_run(case, out)
+    if "runs" not in out:
+        return ("impl-raise", f"implementation raised {out}")
+    for j, (run, o) in enumerate(zip(case["runs"], out["runs"])):
+        r = _oracle_run(run, o)
+        if r is not None:
+            return (r[0], f"run {j} of {len(case['runs'])} in one process (base {_base_label(run['base'])}, chain {run['chain']}, "
+                          f"order={run.get('order', 'fwd')}, share={run.get('share', 'none')}; earlier runs of this session: "
+                          f"{[[_base_label(x['base']), x['chain']] for x in case['runs'][:j]]}): {r[1]}")
+    return None
+
+
+def _sentence(t, mod, i, prev, cur, A, B, which):
+    """the property's sentence for modifier `mod`: A = matrix of the original gate, B = matrix of the modified gate"""
     import numpy as np
     import scipy.linalg as sl
+    if B.shape != (2 ** cur["nq"], 2 ** cur["nq"]):
+        return (t + "-dimension", f"step {i} {mod}: {which} shape {B.shape} for {cur['nq']} qubits")
+    if not (np.all(np.isfinite(A)) and np.all(np.isfinite(B))) or max(np.abs(A).max(), np.abs(B).max()) > 1e12:
+        return None  # float overflow / total loss of precision (e.g. exp of a matrix with entries ~1e4): not judged
+    if t == "dagger":
+        if not _close(B, A.conj().T):
+            sig = "power-fraction-dagger" if has_fraction(prev["struct"]) else "dagger-adjoint"
+            return (sig, f"step {i}: {which} of {_show(cur['struct'])} is not the conjugate transpose of the matrix of "
+                         f"{_show(prev['struct'])}")
+    elif t == "controlled":
+        k, n = mod[1], prev["nq"]
+        d0 = 2 ** n * (2 ** k - 1)
+        want = np.zeros((d0 + 2 ** n, d0 + 2 ** n), dtype=complex)
+        want[:d0, :d0] = np.eye(d0)
+        want[d0:, d0:] = A
+        if not _close(B, want):
+            return ("controlled-block", f"step {i}: controlled({k}) {which} is not identity on the first {d0} states followed by the original")
+    elif t == "power":
+        e = unrat(mod[1])
+        if e.denominator == 1:
+            n = int(e)
+            if n >= 0:
+                if not _close(B, np.linalg.matrix_power(A, n)):
+                    return ("power-integer", f"step {i}: power({n}) {which} is not the {n}-fold product")
+            else:
+                P = np.linalg.matrix_power(A, -n)
+                eye = np.eye(A.shape[0])
+                # judged only where the float product is meaningful (the -n fold product is well conditioned)
+                if np.all(np.isfinite(P)) and np.linalg.cond(P) < 1e6 and np.linalg.cond(A) < 1e6 \
+                        and not (_close(B @ P, eye, 1e-7) and _close(P @ B, eye, 1e-7)):
+                    return ("power-negative", f"step {i}: power({n}) {which} is not the inverse of the {-n}-fold product")
+        elif e.numerator == 1 and e.denominator >= 2:
+            if not _close(np.linalg.matrix_power(B, e.denominator), A, 1e-7):
+                return ("power-root", f"step {i}: the {e.denominator}-th power of power(1/{e.denominator}) ({which}) is not the original matrix")
+    elif t == "exp":
+        # judge only where floating-point exp is meaningful: a generator of moderate norm and finite results
+        # (exp of a matrix with entries ~1e4 overflows / loses all digits in BOTH implementations)
+        if np.all(np.isfinite(A)) and np.linalg.norm(A, 2) <= 20:
+            E = sl.expm(A)
+            if np.all(np.isfinite(E)) and np.all(np.isfinite(B)) and not _close(B, E, 1e-7):
+                return ("exp-matrix", f"step {i}: exp {which} is not the matrix exponential of the original")
+    return None
+
+
+def _oracle_run(case, out):
+    import numpy as np
     if "steps" not in out:
         return ("impl-raise", f"implementation raised {out}")
     steps = out["steps"]
@@ -290,6 +549,9 @@ def oracle(case, out):
         d = len(steps[0]["m"])
         if d != 2 ** steps[0]["nq"]:
             return ("base-dimension", f"base gate reports {steps[0]['nq']} qubits but its matrix is {d}x{d}")
+        if _is_mat(steps[0].get("m2")) and not _close(_np(steps[0]["m"]), _np(steps[0]["m2"])):
+            return ("matrix-unstable", "the base gate's matrix, asked for twice (the first answer was edited in place by the "
+                                       "caller in between), differs: there is no 'original matrix' for the modifiers to refer to")
     for i, mod in enumerate(case["chain"]):
         if i + 1 >= len(steps):
             return ("steps-missing", "implementation output has fewer steps than modifiers")
@@ -312,17 +574,31 @@ def oracle(case, out):
             arity_ok = len(cur_params) == _arity(bspec) or bspec.get("gate") == "Delay"
         if cur["params"] != cur_params:
             return (t + "-params", f"step {i} {mod}: params {cur['params']}, expected {cur_params}")
+        # the same two questions asked again after all later modifier calls were made on these objects
+        sa = prev.get("static_again")
+        if i == 0 and sa is not None and (sa["nq"] != prev["nq"] or sa["params"] != prev["params"]):
+            return ("original-changed", f"step {i} {mod}: after the modifier calls the ORIGINAL gate reports num_qubits/params "
+                                        f"{sa['nq']}/{sa['params']} (before: {prev['nq']}/{prev['params']})")
+        sa = cur.get("static_again")
+        if sa is not None and sa["nq"] != want_nq:
+            return (t + "-num-qubits", f"step {i} {mod}: num_qubits read again later {sa['nq']}, implied {want_nq}")
+        if sa is not None and sa["params"] != cur_params:
+            return (t + "-params", f"step {i} {mod}: params read again later {sa['params']}, expected {cur_params}")
         # ---- matrices
         A, B = prev.get("m"), cur.get("m")
         if t == "replace":
-            if not cur.get("rebuilt_equal"):
-                return ("replace-not-equal", f"step {i}: replace_params result != modifiers applied to the re-parameterised base: "
+            if not cur.get("rebuilt_equal") or not cur.get("rebuilt_equal_rev", True) or cur.get("rebuilt_unequal", False):
+                return ("replace-not-equal", f"step {i}: replace_params result != modifiers applied to the re-parameterised base "
+                                             f"(a==b {cur.get('rebuilt_equal')}, b==a {cur.get('rebuilt_equal_rev')}, a!=b {cur.get('rebuilt_unequal')}): "
                                              f"{cur['struct']} vs {cur['rebuilt']['struct']}")
             rb = cur["rebuilt"]
             if rb["nq"] != cur["nq"] or rb["params"] != cur["params"]:
                 return ("replace-not-equal", f"step {i}: rebuilt gate differs in num_qubits/params")
-            if _is_mat(B) and _is_mat(rb["m"]) and not _close(_np(B), _np(rb["m"])):
-                return ("replace-matrix", f"step {i}: matrix after replace_params differs from the rebuilt gate's matrix")
+            for which in ("m", "m2"):
+                Bw = cur.get(which)
+                if _is_mat(Bw) and _is_mat(rb["m"]) and not _close(_np(Bw), _np(rb["m"])):
+                    return ("replace-matrix", f"step {i}: matrix after replace_params{' (second reading)' if which == 'm2' else ''} "
+                                              f"differs from the rebuilt gate's matrix")
             if arity_ok and isinstance(B, dict) and B.get("err") == "err:type":
                 return ("matrix-raise", f"step {i}: matrix raised TypeError with the right number of parameters")
             continue
@@ -333,46 +609,18 @@ def oracle(case, out):
                 if abs(np.linalg.det(_np(A))) > 1e-6:
                     return ("matrix-raise", f"step {i} {mod}: NonInvertibleMatrixError on an invertible matrix")
             continue  # timeouts / failures inside sympy's routines are counted, not judged
-        A, B = _np(A), _np(B)
-        if B.shape != (2 ** cur["nq"], 2 ** cur["nq"]):
-            return (t + "-dimension", f"step {i} {mod}: matrix shape {B.shape} for {cur['nq']} qubits")
-        if not (np.all(np.isfinite(A)) and np.all(np.isfinite(B))) or max(np.abs(A).max(), np.abs(B).max()) > 1e12:
-            continue  # float overflow / total loss of precision (e.g. exp of a matrix with entries ~1e4): not judged
-        if t == "dagger":
-            if not _close(B, A.conj().T):
-                sig = "power-fraction-dagger" if has_fraction(prev["struct"]) else "dagger-adjoint"
-                return (sig, f"step {i}: matrix of {_show(cur['struct'])} is not the conjugate transpose of the matrix of "
-                             f"{_show(prev['struct'])}")
-        elif t == "controlled":
-            k, n = mod[1], prev["nq"]
-            d0 = 2 ** n * (2 ** k - 1)
-            want = np.zeros((d0 + 2 ** n, d0 + 2 ** n), dtype=complex)
-            want[:d0, :d0] = np.eye(d0)
-            want[d0:, d0:] = A
-            if not _close(B, want):
-                return ("controlled-block", f"step {i}: controlled({k}) matrix is not identity on the first {d0} states followed by the original")
-        elif t == "power":
-            e = unrat(mod[1])
-            if e.denominator == 1:
-                n = int(e)
-                if n >= 0:
-                    if not _close(B, np.linalg.matrix_power(A, n)):
-                        return ("power-integer", f"step {i}: power({n}) is not the {n}-fold product")
-                else:
-                    P = np.linalg.matrix_power(A, -n)
-                    eye = np.eye(A.shape[0])
-                    if np.linalg.cond(A) < 1e6 and not (_close(B @ P, eye, 1e-7) and _close(P @ B, eye, 1e-7)):
-                        return ("power-negative", f"step {i}: power({n}) is not the inverse of the {-n}-fold product")
-            elif e.numerator == 1 and e.denominator >= 2:
-                if not _close(np.linalg.matrix_power(B, e.denominator), A, 1e-7):
-                    return ("power-root", f"step {i}: the {e.denominator}-th power of power(1/{e.denominator}) is not the original matrix")
-        elif t == "exp":
-            # judge only where floating-point exp is meaningful: a generator of moderate norm and finite results
-            # (exp of a matrix with entries ~1e4 overflows / loses all digits in BOTH implementations)
-            if np.all(np.isfinite(A)) and np.linalg.norm(A, 2) <= 20:
-                E = sl.expm(A)
-                if np.all(np.isfinite(E)) and np.all(np.isfinite(B)) and not _close(B, E, 1e-7):
-                    return ("exp-matrix", f"step {i}: exp matrix is not the matrix exponential of the original")
+        # the sentence must hold for every reading of the two matrices (m2 = asked again after the caller edited the first answer)
+        for wa, Aw in (("m", A), ("m2", prev.get("m2"))):
+            if not _is_mat(Aw):
+                continue
+            for wb, Bw in (("m", B), ("m2", cur.get("m2"))):
+                if not _is_mat(Bw):
+                    continue
+                which = "matrix" if (wa, wb) == ("m", "m") else \
+                    f"matrix ({'second' if wb == 'm2' else 'first'} reading; original: {'second' if wa == 'm2' else 'first'} reading)"
+                r = _sentence(t, mod, i, prev, cur, _np(Aw), _np(Bw), which)
+                if r is not None:
+                    return r
     return None
 
 
@@ -452,29 +700,70 @@ def _resolve(need, flags):
     return entry
 
 
-def requests(case, out):
-    flags = {"ambiguous": False, "unresolved": False}
-    _FLAGS[common.canon(case)] = flags
-    table = []
-    if any(m[0] == "exp" or (m[0] == "power" and unrat(m[1]).denominator != 1) for m in case["chain"]):
-        drv = common.Driver(PROP)
-        seen = set()
-        for _ in range(8):
-            resp = drv.run([("chain", _payload(case, table))])[0]
+_REQ_CACHE = {}
+_GENERATED = []  # the cases handed out by corpus() / generate(): their external tables are resolved in one batch
+
+
+def _run_key(run):
+    return common.canon([run["base"], run["chain"]])
+
+
+def _needs_external(run):
+    return any(m[0] == "exp" or (m[0] == "power" and unrat(m[1]).denominator != 1) for m in run["chain"])
+
+
+def _prefetch(runs):
+    """fill _REQ_CACHE for the given runs.  Runs with externals need a few rounds with the driver (it names the argument
+    matrix of every exp / non-integer power it meets, scipy supplies the value); all runs share one driver call per round."""
+    todo = {}
+    for run in runs:
+        key = _run_key(run)
+        if key in _REQ_CACHE or key in todo:
+            continue
+        _FLAGS[key] = {"ambiguous": False, "unresolved": False}
+        if _needs_external(run):
+            todo[key] = {"run": run, "table": [], "seen": set()}
+        else:
+            _REQ_CACHE[key] = [("chain", _payload(run, []))]
+    drv = common.Driver(PROP)
+    active = list(todo)
+    for _ in range(8):
+        if not active:
+            break
+        resps = drv.run([("chain", _payload(todo[k]["run"], todo[k]["table"])) for k in active])
+        nxt = []
+        for k, resp in zip(active, resps):
             if not isinstance(resp, list):
-                break
+                continue
             new = []
             for st in resp:
                 nd = st.get("m", {}).get("need") if isinstance(st.get("m"), dict) else None
                 if nd is not None:
-                    key = common.canon(nd)
-                    if key not in seen:
-                        seen.add(key)
+                    kk = common.canon(nd)
+                    if kk not in todo[k]["seen"]:
+                        todo[k]["seen"].add(kk)
                         new.append(nd)
-            if not new:
-                break
-            table.extend(_resolve(nd, flags) for nd in new)
-    return [("chain", _payload(case, table))]
+            if new:
+                todo[k]["table"].extend(_resolve(nd, _FLAGS[k]) for nd in new)
+                nxt.append(k)
+        active = nxt
+    for k, v in todo.items():
+        _REQ_CACHE[k] = [("chain", _payload(v["run"], v["table"]))]
+
+
+def _requests_run(run):
+    key = _run_key(run)
+    if key not in _REQ_CACHE:
+        pending = [r for c in _GENERATED for r in case_runs(c)]
+        del _GENERATED[:]
+        _prefetch(pending + [run])
+    return _REQ_CACHE[key]
+
+
+def requests(case, out):
+    """one `chain` request per run (a session is answered run by run: the model is a pure function of base + chain, which is
+    exactly what the property says the implementation must be)"""
+    return [r for run in case_runs(case) for r in _requests_run(run)]
 
 
 def _norm_model_params(ps):
@@ -508,13 +797,45 @@ def _norm_struct(s, model):
     return s
 
 
+def _roots_lawful(run, isteps):
+    """every non-integer power step of the implementation satisfies the root law on the implementation's own matrices"""
+    import numpy as np
+    ok = False
+    for i, mod in enumerate(run["chain"]):
+        if mod[0] != "power" or i + 1 >= len(isteps):
+            continue
+        e = unrat(mod[1])
+        if e.denominator == 1:
+            continue
+        if e.numerator != 1:
+            return False
+        A, B = isteps[i].get("m"), isteps[i + 1].get("m")
+        if not (_is_mat(A) and _is_mat(B)):
+            continue
+        if not _close(np.linalg.matrix_power(_np(B), e.denominator), _np(A), 1e-7):
+            return False
+        ok = True
+    return ok
+
+
 def compare(case, out, resp):
-    r = resp[0]
+    if not is_session(case):
+        return _compare_run(case, out, resp[0])
+    if "runs" not in out:
+        return None  # the oracle already fails this case
+    for j, (run, o, r) in enumerate(zip(case["runs"], out["runs"], resp)):
+        msg = _compare_run(run, o, r)
+        if msg:
+            return f"session run {j} ({_base_label(run['base'])} {run['chain']}): {msg}"
+    return None
+
+
+def _compare_run(case, out, r):
     if isinstance(r, dict) and "driver_error" in r:
         return "driver error: " + r["driver_error"]
     if "steps" not in out:
         return None  # the oracle already fails this case
-    flags = _FLAGS.get(common.canon(case), {})
+    flags = _FLAGS.get(_run_key(case), {})
     isteps = out["steps"]
     if len(isteps) != len(r):
         return f"implementation produced {len(isteps)} steps, model {len(r)}: impl {isteps[-1] if isteps else None} model {r[-1] if r else None}"
@@ -524,31 +845,42 @@ def compare(case, out, resp):
             if a.get("err") != b.get("err"):
                 return f"{what}: impl {a} model {b}"
             continue
-        sa, sb = _norm_struct(a["struct"], False), _norm_struct(b["struct"], True)
-        if sa != sb:
-            return f"{what}: object structure differs: impl {common.canon(sa)} model {common.canon(sb)}"
-        if a["nq"] != b["nq"]:
-            return f"{what}: num_qubits impl {a['nq']} model {b['nq']}"
-        pa, pb = _norm_params(a["params"]), _norm_params(_norm_model_params(b["params"]))
-        if pa != pb:
-            return f"{what}: params impl {pa} model {pb}"
-        ma, mb = a["m"], b["m"]
-        if _is_mat(ma) and _is_mat(mb):
-            A, B = _np(ma), circ.model_matrix_to_numpy(mb)
-            if not _close(A, B):
-                if flags.get("ambiguous") and has_fraction(a["struct"]):
-                    _SUPPRESSED[0] += 1
-                    continue  # eigenvalue on the branch cut of the root; the oracle still checks the q-th power
-                return f"{what}: matrix differs: impl {ma} model {B.round(9).tolist()}"
-        elif isinstance(ma, dict) and isinstance(mb, dict):
-            if "err" in ma or "err" in mb:
-                if ma.get("err") != mb.get("err") and not ("timeout" in ma or "exterr" in ma or "exterr" in mb or "need" in mb):
-                    return f"{what}: matrix error impl {ma} model {mb}"
-        else:
-            d = ma if isinstance(ma, dict) else mb
-            if "err" in d:
-                return f"{what}: one side raised {d}, the other returned a matrix"
-            # timeout / external failure on one side only: counted in the evidence, not comparable
+        sb = _norm_struct(b["struct"], True)
+        pb = _norm_params(_norm_model_params(b["params"]))
+        for tag, aa in (("", a), (" (read again at the end)", a.get("static_again"))):
+            if aa is None:
+                continue
+            sa = _norm_struct(aa["struct"], False)
+            if sa != sb:
+                return f"{what}{tag}: object structure differs: impl {common.canon(sa)} model {common.canon(sb)}"
+            if aa["nq"] != b["nq"]:
+                return f"{what}{tag}: num_qubits impl {aa['nq']} model {b['nq']}"
+            pa = _norm_params(aa["params"])
+            if pa != pb:
+                return f"{what}{tag}: params impl {pa} model {pb}"
+        mb = b["m"]
+        for tag, ma in (("", a["m"]), (" (second reading)", a.get("m2"))):
+            if ma is None:
+                continue
+            if _is_mat(ma) and _is_mat(mb):
+                A, B = _np(ma), circ.model_matrix_to_numpy(mb)
+                if not _close(A, B):
+                    if has_fraction(a["struct"]) and (flags.get("ambiguous") or _roots_lawful(case, isteps)):
+                        # a q-th root is not unique: eigenvalue on the branch cut (float noise decides), or sympy rewrote
+                        # (M**2)**(1/6) as M**(1/3) (a root, but not the principal one the table holds).  The model only assumes
+                        # the root LAW (ExtLaws.root); the oracle checks that law on the implementation's own matrices.
+                        _SUPPRESSED[0] += 1
+                        continue
+                    return f"{what}{tag}: matrix differs: impl {ma} model {B.round(9).tolist()}"
+            elif isinstance(ma, dict) and isinstance(mb, dict):
+                if "err" in ma or "err" in mb:
+                    if ma.get("err") != mb.get("err") and not ("timeout" in ma or "exterr" in ma or "exterr" in mb or "need" in mb):
+                        return f"{what}{tag}: matrix error impl {ma} model {mb}"
+            else:
+                d = ma if isinstance(ma, dict) else mb
+                if "err" in d:
+                    return f"{what}{tag}: one side raised {d}, the other returned a matrix"
+                # timeout / external failure on one side only: counted in the evidence, not comparable
     return None
 
 
@@ -635,7 +967,407 @@ def _random_chain(rng, base, depth, max_total, externals):
     return chain
 
 
+# ------------------------------------------------------------------ sessions: sibling runs on long-lived objects
+# gates on which sympy's exp / fractional power / integer power of the exp return in well under 0.3 s
+FAST0 = ["X", "Y", "Z", "H", "S", "I", "SX", "CNOT", "CZ", "SWAP", "ISWAP"]
+FAST1 = ["RZ", "PHASE", "RY", "RX", "GPi", "CPHASE"]
+# ... and on which Matrix.exp() does too (measured at random rational angles; RZ / PHASE / CPHASE / RX / SX / ISWAP do not)
+EXP0 = ["X", "Y", "Z", "H", "S", "I", "CZ", "CNOT"]
+EXP1 = ["RY", "GPi"]
+NO_NAME_SIBLING = ("U3", "MS", "Delay")
+
+
+def _is_ext_mod(m):
+    return m[0] == "exp" or (m[0] == "power" and unrat(m[1]).denominator != 1)
+
+
+def _run_ok(run, max_total=4):
+    """size discipline of every generated run: total <= max_total qubits; exp / non-integer powers only while the gate has
+    <= 2 qubits, at most two of them, never a non-integer power of something that contains an exp (sympy does not return)"""
+    nq = _base_nq(run["base"])
+    ext = 0
+    seen_exp = False
+    for m in run["chain"]:
+        if m[0] == "controlled":
+            if m[1] < 1:
+                return False
+            nq += m[1]
+        if _is_ext_mod(m):
+            ext += 1
+            if nq > 2 or ext > 2:
+                return False
+            if m[0] == "exp":
+                if seen_exp:
+                    return False
+                seen_exp = True
+            elif seen_exp:
+                return False
+        if m[0] == "replace" and len(m[1]) != len(run["base"]["params"]):
+            return False
+    return nq <= max_total
+
+
+def _has_ext(run):
+    return any(_is_ext_mod(m) for m in run["chain"])
+
+
+def _near_angle(a):
+    """an angle that differs from `a` by about 1e-6 relative: equal for every tolerant comparison (np.allclose in
+    MatrixFactoryGate.__eq__), different for the matrix (entries move by ~5e-7, tolerance of this check 1e-8)"""
+    ch, sh = unrat(a[0]), unrat(a[1])
+    # t = tan(theta/4) of the half-angle point; perturb it by 2^-20 relative and map back to the circle (exact rationals)
+    if ch == -1:
+        return None
+    t = sh / (1 + ch)
+    if t == 0:
+        t2 = Fraction(1, 2 ** 20)
+    else:
+        t2 = t * (1 + Fraction(1, 2 ** 20))
+    return [rat((1 - t2 * t2) / (1 + t2 * t2)), rat(2 * t2 / (1 + t2 * t2))]
+
+
+def _vary_param_list(rng, bspec, params):
+    """the same parameter list with exactly one entry changed (or two entries exchanged)"""
+    if not params:
+        return None
+    ps = [p if isinstance(p, dict) else list(p) for p in params]
+    j = rng.randrange(len(ps))
+    if "gate" in bspec:
+        if bspec["gate"] == "Delay":
+            ps[j] = [rat(unrat(ps[j][0]) + Fraction(rng.randrange(1, 8), 4)), 0]
+            return ps
+        r = rng.random()
+        if r < 0.25:
+            ps[j] = [ps[j][0], rat(-unrat(ps[j][1]))]          # theta -> -theta
+        elif r < 0.45:
+            ps[j] = [rat(-unrat(ps[j][0])), rat(-unrat(ps[j][1]))]  # theta -> theta +- 2 pi (matrix changes sign for rotations)
+        elif r < 0.65:
+            near = _near_angle(ps[j])
+            ps[j] = near if near is not None else circ.rat_angle(rng, 0.0)
+        elif r < 0.8 and len(ps) > 1:
+            k = (j + 1) % len(ps)
+            ps[j], ps[k] = ps[k], ps[j]
+        else:
+            ps[j] = circ.rat_angle(rng, 0.2)
+    else:
+        v = ps[j]["v"]
+        ps[j] = {"v": [rat(unrat(v[0]) + rng.choice([-1, 1, Fraction(1, 2)])), v[1]]} if rng.random() < 0.5 else \
+            {"v": [v[0], rat(unrat(v[1]) + rng.choice([-1, 1, Fraction(1, 4)]))]}
+    return ps if ps != params else None
+
+
+def _v_name(rng, run, fast):
+    """another gate under the same modifiers: a different built-in with the same parameters; for custom gates a second
+    definition with the SAME NAME and one matrix entry changed, or the same matrix under another name"""
+    b = run["base"]
+    if "gate" in b:
+        if b["gate"] in NO_NAME_SIBLING:
+            return None
+        ar = circ.BUILTIN_PARAMS[b["gate"]]
+        pool = [n for n in circ.BUILTIN_PARAMS if circ.BUILTIN_PARAMS[n] == ar and n != b["gate"] and n not in NO_NAME_SIBLING
+                and (not fast or n in ((EXP0 + EXP1) if any(m[0] == "exp" for m in run["chain"]) else (FAST0 + FAST1)))]
+        if not pool:
+            return None
+        nb = dict(b, gate=rng.choice(pool))
+    else:
+        r = rng.random()
+        if r < 0.25:
+            # same name, same symbols, another SIZE: 2x2 -> block diag(M, M with its symbols set to 1); 4x4 -> its top-left block
+            rows = [[e if isinstance(e, dict) else list(e) for e in row] for row in b["rows"]]
+            if len(rows) == 2:
+                z = [0, 0]
+                lower = [[[1, 0] if isinstance(e, dict) else list(e) for e in row] for row in rows]
+                rows = [rows[0] + [z, z], rows[1] + [z, z], [z, z] + lower[0], [z, z] + lower[1]]
+            else:
+                rows = [row[:2] for row in rows[:2]]
+                if {e["sym"] for row in rows for e in row if isinstance(e, dict)} != set(range(b["nsyms"])):
+                    return None
+            nb = dict(b, rows=rows)
+        elif r < 0.8:
+            rows = [[e if isinstance(e, dict) else list(e) for e in row] for row in b["rows"]]
+            consts = [(i, j) for i, row in enumerate(rows) for j, e in enumerate(row) if not isinstance(e, dict)]
+            if not consts:
+                return None
+            i, j = rng.choice(consts)
+            rows[i][j] = [rows[i][j][0] + rng.choice([-1, 1]), rows[i][j][1] + rng.choice([0, 0, 1])]
+            nb = dict(b, rows=rows)
+        else:
+            nb = dict(b, custom=b["custom"] + "_alias")
+    return dict(run, base=nb)
+
+
+def _v_params(rng, run, fast):
+    ps = _vary_param_list(rng, run["base"], run["base"]["params"])
+    return None if ps is None else dict(run, base=dict(run["base"], params=ps))
+
+
+def _v_near(rng, run, fast):
+    """one parameter moved by a relative 1e-6: equal for every tolerant comparison, a different matrix"""
+    b = run["base"]
+    if "gate" not in b or not b["params"] or b["gate"] == "Delay":
+        return None
+    ps = [list(p) for p in b["params"]]
+    j = rng.randrange(len(ps))
+    near = _near_angle(ps[j])
+    if near is None:
+        return None
+    ps[j] = near
+    return dict(run, base=dict(b, params=ps))
+
+
+def _v_arg(rng, run, fast):
+    """one modifier's argument changed: control count, exponent, replacement parameters"""
+    idx = [i for i, m in enumerate(run["chain"]) if len(m) > 1]
+    if not idx:
+        return None
+    i = rng.choice(idx)
+    m = list(run["chain"][i])
+    if m[0] == "controlled":
+        m[1] = rng.choice([k for k in (1, 2, 3) if k != m[1]])
+    elif m[0] == "power":
+        e = unrat(m[1])
+        if e.denominator == 1:
+            opts = [-e, e + 1, e - 1, 2 * e, 0]
+            if fast and 2 <= abs(e) <= 4:
+                opts.append(Fraction(1, int(abs(e))))
+            opts = [o for o in opts if o != e]
+        else:
+            opts = [Fraction(1, q) for q in (2, 3, 4, 5) if Fraction(1, q) != e] + [Fraction(e.denominator)]
+        m = ["power", rat(rng.choice(opts))] + m[2:]
+    elif m[0] == "replace":
+        ps = _vary_param_list(rng, run["base"], m[1])
+        if ps is None:
+            return None
+        m[1] = ps
+    return dict(run, chain=run["chain"][:i] + [m] + run["chain"][i + 1:])
+
+
+def _v_struct(rng, run, fast):
+    """one modifier inserted, removed, or two neighbours exchanged"""
+    ch = [list(m) for m in run["chain"]]
+    r = rng.random()
+    if r < 0.45 or not ch:
+        new = rng.choice([["dagger"], ["dagger"], ["controlled", 1], ["power", rng.choice([-1, 2, 3])]] + ([["exp"]] if fast else []))
+        ch.insert(rng.randrange(len(ch) + 1), new)
+    elif r < 0.7:
+        ch.pop(rng.randrange(len(ch)))
+    elif len(ch) >= 2:
+        i = rng.randrange(len(ch) - 1)
+        ch[i], ch[i + 1] = ch[i + 1], ch[i]
+    else:
+        return None
+    return dict(run, chain=ch)
+
+
+def _v_exptype(rng, run, fast):
+    """an integer exponent handed over as a Python float (2 -> 2.0): same gate, same matrix expected"""
+    idx = [i for i, m in enumerate(run["chain"]) if m[0] == "power" and unrat(m[1]).denominator == 1 and len(m) == 2]
+    if not idx:
+        return None
+    i = rng.choice(idx)
+    return dict(run, chain=run["chain"][:i] + [run["chain"][i] + ["f"]] + run["chain"][i + 1:])
+
+
+VARIATIONS = [_v_name, _v_name, _v_params, _v_near, _v_near, _v_arg, _v_arg, _v_struct, _v_exptype]
+
+
+def _session(rng, seed, fast, tier, n_variants):
+    """[seed run, siblings that differ from it in exactly one component ..., seed run again], all in one process on shared
+    prototypes / gate definitions (and, per `share`, on the same gate objects)"""
+    max_total = 4
+    variants, tried = [], 0
+    ops = list(VARIATIONS)
+    forced = [_v_name, rng.choice([_v_params, _v_near, _v_arg])]  # every session has a same-shape sibling with another gate
+    while len(variants) < n_variants and tried < 40:
+        tried += 1
+        op = forced.pop(0) if forced and tried <= 8 + len(variants) * 4 and len(variants) < 2 else rng.choice(ops)
+        v = op(rng, seed, fast)
+        if v is None and op in (_v_name, _v_params, _v_near) and tried < 8:
+            forced.insert(0, op)  # a few more attempts (random choices inside), then give up on it
+        if v is None or not _run_ok(v, max_total) or (not fast and _has_ext(v)):
+            continue
+        if any(_run_key(v) == _run_key(w) for w in variants + [seed]):
+            continue
+        variants.append(v)
+    share = rng.choice(["none", "base", "all", "all"])
+    runs = []
+    for k, r in enumerate([seed] + variants + [seed]):
+        runs.append({"base": r["base"], "chain": r["chain"], "order": "fwd" if (k == 0 or rng.random() < 0.65) else "rev",
+                     "share": share, "reread": bool(rng.random() < 0.5), "recheck": True, "decoy": bool(rng.random() < 0.5)})
+    return {"kind": "session-ext" if fast else "session", "runs": runs, "tier": tier}
+
+
+def _int_seed_run(rng):
+    base = _random_base(rng, 2, custom_prob=0.3)
+    if "gate" in base and rng.random() < 0.5:
+        # parametric built-ins are where a key made of too few components collides
+        base = {"gate": rng.choice([n for n in circ.BUILTIN_PARAMS if circ.BUILTIN_PARAMS[n] > 0 and n != "RH"])}
+        base["params"] = _params_for(rng, base, 0.15)
+    for _ in range(20):
+        chain = _random_chain(rng, base, rng.choice([1, 2, 2, 3]), 3, False)
+        if base["params"] and rng.random() < 0.35:
+            chain = list(chain)
+            chain.insert(rng.randrange(1, len(chain) + 1) if chain else 0, ["replace", _params_for(rng, base, 0.1)])
+        run = {"base": base, "chain": chain}
+        if chain and _run_ok(run, 3):
+            return run
+    return {"base": base, "chain": [["dagger"]]}
+
+
+EXT_PATTERNS = [
+    [["exp"], ["power", "n"]], [["exp"], ["power", "n"]], [["exp"], ["dagger"]], [["exp"], ["controlled", 1]],
+    [["exp"], ["power", "n"], ["controlled", 1]], [["exp"], ["power", "n"], ["dagger"]], [["dagger"], ["exp"], ["power", "n"]],
+    [["power", "1/q"]], [["power", "1/q"], ["controlled", 1]], [["power", "1/q"], ["power", "n"]], [["power", "n"], ["exp"]],
+    [["controlled", 1], ["exp"]], [["controlled", 1], ["exp"], ["power", "n"]], [["exp"], ["replace"], ["power", "n"]],
+    [["power", "1/q"], ["replace"]], [["exp"], ["controlled", 1], ["power", "n"]],
+    [["exp"], ["replace"]], [["exp"], ["dagger"], ["replace"]], [["exp"], ["controlled", 1], ["replace"]],
+    [["power", "n"], ["exp"], ["replace"]], [["power", "1/q"], ["controlled", 1], ["replace"]],
+]
+
+
+def _ext_seed_run(rng):
+    for _ in range(40):
+        pat = rng.choice(EXT_PATTERNS)
+        needs_params = any(m[0] == "replace" for m in pat)
+        ctl_first = pat[0][0] == "controlled"
+        has_exp = any(m[0] == "exp" for m in pat)
+        pool0, pool1 = (EXP0, EXP1) if has_exp else (FAST0, FAST1)
+        if (needs_params and rng.random() < 0.7) or (not needs_params and rng.random() < 0.45):
+            base = {"gate": rng.choice([n for n in pool1 if not (ctl_first and circ.BUILTIN_QUBITS[n] > 1)])}
+        elif needs_params or rng.random() < 0.2:
+            _counter[0] += 1
+            syms = 1 if needs_params else rng.choice([0, 1])
+            base = {"custom": f"sg{_counter[0]}", "rows": _diagish_rows(rng, syms), "nsyms": syms}
+        else:
+            base = {"gate": rng.choice([n for n in pool0 if not (ctl_first and circ.BUILTIN_QUBITS[n] > 1)])}
+        base["params"] = _params_for(rng, base, 0.0)
+        chain = []
+        for m in pat:
+            if m[0] == "power" and m[1] == "n":
+                chain.append(["power", rng.choice([-2, -1, 2, 3, 2, -1])])
+            elif m[0] == "power":
+                chain.append(["power", f"1/{rng.choice([2, 2, 3, 4, 5])}"])
+            elif m[0] == "replace":
+                chain.append(["replace", _params_for(rng, base, 0.0)])
+            else:
+                chain.append(list(m))
+        run = {"base": base, "chain": chain}
+        if _run_ok(run, 3):
+            return run
+    return {"base": {"gate": "Z", "params": []}, "chain": [["exp"], ["power", 2]]}
+
+
+def _diagish_rows(rng, syms):
+    """2x2 triangular Gaussian-integer matrix with non-zero diagonal (sympy's exp / roots of it return quickly)"""
+    a, d = rng.choice([1, 2, -1, 3]), rng.choice([1, 2, -2, 3])
+    rows = [[[a, rng.choice([0, 1])], [rng.choice([0, 1, 2]), 0]], [[0, 0], [d, rng.choice([0, -1])]]]
+    if syms:
+        rows[0][1] = {"sym": 0}
+    return rows
+
+
+# ------------------------------------------------------------------ exotic but legal inputs
+def _exotic_cases(rng, tier, n_pow, n_ctl, n_root):
+    out = []
+    for _ in range(n_pow):  # large exponents, integer exponents handed over as floats
+        base = _random_base(rng, 2, custom_prob=0.2)
+        if rng.random() < 0.5:
+            e = rng.choice([4, 5, 6, 7, 8, 9, 12, -4, -5, -6, -8, -11] if "gate" in base else [4, 5, 6, -4, -5])
+            mod = ["power", e] + (["f"] if rng.random() < 0.3 else [])
+        else:
+            mod = ["power", rng.choice([-3, -2, -1, 0, 1, 2, 3]), "f"]
+        pre = rng.choice([[], [], [["dagger"]], [["controlled", 1]], [["replace", _params_for(rng, base)]]])
+        post = rng.choice([[], [], [["dagger"]], [["controlled", 1]], [["power", 2]], [["replace", _params_for(rng, base)]]])
+        out.append({"kind": "exotic", "base": base, "chain": pre + [mod] + post, "tier": tier})
+    for _ in range(n_ctl):  # many controls (up to 6 qubits in total)
+        base = _random_base(rng, 1, custom_prob=0.2, small_custom=True)
+        chain = rng.choice([
+            [["controlled", 4]], [["controlled", 5]], [["controlled", 2], ["controlled", 3]], [["dagger"], ["controlled", 4]],
+            [["power", -2], ["controlled", 4]], [["controlled", 4], ["dagger"]], [["controlled", 3], ["controlled", 1], ["power", 2]],
+            [["controlled", 1], ["controlled", 1], ["controlled", 2], ["dagger"]], [["power", 3], ["controlled", 5], ["dagger"]],
+            [["controlled", 4], ["replace", _params_for(rng, base)]]])
+        out.append({"kind": "exotic", "base": base, "chain": chain, "tier": tier})
+    for _ in range(n_root):  # unit fractions beyond 1/4
+        name = rng.choice(["X", "Y", "Z", "H", "S", "T", "CZ", "CNOT", "SWAP", "ISWAP", "RZ", "PHASE", "RX", "RY", "GPi", "CPHASE", "ZZ"])
+        base = {"gate": name}
+        base["params"] = _params_for(rng, base, 0.0)
+        q = rng.choice([5, 6, 7, 8, 9, 16])
+        pre = rng.choice([[], [], [["dagger"]], [["power", 2]]])
+        post = rng.choice([[], [], [["controlled", 1]], [["power", q]], [["replace", _params_for(rng, base, 0.0)]]])
+        out.append({"kind": "exotic", "base": base, "chain": pre + [["power", f"1/{q}"]] + post, "tier": tier})
+    return out
+
+
+# ------------------------------------------------------------------ parameter values at which the matrix happens to be special
+AXIS = [[1, 0], [0, 1], [-1, 0], [0, -1]]
+
+
+def _herm_custom(rng):
+    """parametric custom gate + parameter values at which its matrix is self-adjoint (and generic ones at which it is not)"""
+    d = 2
+    H = [[None] * d for _ in range(d)]
+    for i in range(d):
+        H[i][i] = [rng.randrange(-2, 3), 0]
+        for j in range(i + 1, d):
+            re, im = rng.randrange(-2, 3), rng.randrange(-2, 3)
+            H[i][j], H[j][i] = [re, im], [re, -im]
+    nsyms = rng.choice([1, 1, 2])
+    pos = rng.sample([(i, j) for i in range(d) for j in range(d)], nsyms)
+    special, generic = [], []
+    G = [[complex(*e) for e in row] for row in H]
+    for s, (i, j) in enumerate(pos):
+        special.append({"v": [H[i][j][0], H[i][j][1]]})
+        gv = [H[i][j][0] + Fraction(rng.choice([-3, -1, 1, 2, 3]), rng.choice([1, 2])),
+              H[i][j][1] + Fraction(rng.choice([-2, -1, 1, 3]), rng.choice([1, 2, 4]))]
+        generic.append({"v": [rat(gv[0]), rat(gv[1])]})
+        G[i][j] = complex(float(gv[0]), float(gv[1]))
+    S = [[complex(*e) for e in row] for row in H]
+    if abs(S[0][0] * S[1][1] - S[0][1] * S[1][0]) < 0.5 or abs(G[0][0] * G[1][1] - G[0][1] * G[1][0]) < 0.05:
+        return _herm_custom(rng)  # negative powers of singular matrices belong to the malformed stream
+    for s, (i, j) in enumerate(pos):
+        H[i][j] = {"sym": s}
+    _counter[0] += 1
+    return {"custom": f"hg{_counter[0]}", "rows": H, "nsyms": nsyms}, special, generic
+
+
+SPECIAL_PATTERNS = [
+    ("S", [["dagger"], ["replace", "G"]]), ("S", [["replace", "G"], ["dagger"]]),
+    ("S", [["controlled", 1], ["dagger"], ["replace", "G"]]), ("S", [["dagger"], ["controlled", 2], ["replace", "G"]]),
+    ("S", [["power", 2], ["dagger"], ["replace", "G"]]), ("S", [["replace", "G"], ["power", -1], ["dagger"]]),
+    ("S", [["dagger"], ["power", -1], ["replace", "G"]]), ("S", [["controlled", 1], ["replace", "G"], ["dagger"]]),
+    ("G", [["replace", "S"], ["dagger"]]), ("G", [["dagger"], ["replace", "S"]]),
+    ("G", [["dagger"], ["replace", "S"], ["replace", "G"]]), ("G", [["replace", "S"], ["controlled", 1], ["dagger"], ["replace", "G"]]),
+    ("S", [["dagger"], ["replace", "G"], ["dagger"]]), ("S", [["power", 3], ["replace", "G"], ["dagger"], ["controlled", 1]]),
+]
+
+
+def _special_cases(rng, tier, n):
+    out = []
+    for _ in range(n):
+        if rng.random() < 0.5:
+            base, special, generic = _herm_custom(rng)
+        else:
+            base = {"gate": rng.choice([g for g in circ.BUILTIN_PARAMS if circ.BUILTIN_PARAMS[g] > 0 and g != "Delay"])}
+            k = circ.BUILTIN_PARAMS[base["gate"]]
+            special = [list(rng.choice(AXIS)) for _ in range(k)]
+            generic = [circ.rat_angle(rng, 0.0) for _ in range(k)]
+        start, pat = rng.choice(SPECIAL_PATTERNS)
+        vals = {"S": special, "G": generic}
+        chain = [["replace", vals[m[1]]] if m[0] == "replace" else list(m) for m in pat]
+        out.append({"kind": "special", "base": dict(base, params=vals[start]), "chain": chain, "tier": tier})
+    return out
+
+
 def corpus():
+    return _register(_corpus())
+
+
+def _register(cases):
+    _GENERATED.extend(cases)
+    return cases
+
+
+def _corpus():
     x = {"gate": "X", "params": []}
     s = {"gate": "S", "params": []}
     t = {"gate": "T", "params": []}
@@ -652,6 +1384,61 @@ def corpus():
         {"kind": "chain", "base": rx, "chain": [["exp"], ["dagger"], ["controlled", 1]]},
         {"kind": "chain", "base": u3, "chain": [["controlled", 1], ["controlled", 2], ["dagger"], ["power", 2]]},
         {"kind": "chain", "base": cg, "chain": [["dagger"], ["power", -1], ["replace", [{"v": ["-3/2", 2]}]], ["controlled", 1]]},
+        # --- sessions: sibling runs in one process (same wrapper name / same parameters / same exponent, different content)
+        {"kind": "session-ext", "runs": [
+            {"base": x, "chain": [["exp"], ["power", 2]], "share": "all", "recheck": True},
+            {"base": {"gate": "Y", "params": []}, "chain": [["exp"], ["power", 2]], "share": "all", "recheck": True},
+            {"base": {"gate": "SWAP", "params": []}, "chain": [["exp"], ["power", 2], ["controlled", 1]], "order": "rev", "recheck": True},
+            {"base": x, "chain": [["exp"], ["power", 2]], "share": "all", "reread": True, "recheck": True}]},
+        {"kind": "session-ext", "runs": [
+            {"base": {"gate": "Z", "params": []}, "chain": [["controlled", 1], ["exp"], ["power", -1]]},
+            {"base": s, "chain": [["controlled", 1], ["exp"], ["power", -1]], "order": "rev"},
+            {"base": {"gate": "Z", "params": []}, "chain": [["controlled", 1], ["exp"], ["dagger"]], "reread": True}]},
+        {"kind": "session", "runs": [
+            {"base": {"custom": "corpus_u", "rows": [[[1, 0], [1, 0]], [[0, 0], [1, 0]]], "nsyms": 0, "params": []}, "chain": [["power", 3], ["dagger"]]},
+            {"base": {"custom": "corpus_u", "rows": [[[2, 0], [0, 0]], [[0, 0], [1, 1]]], "nsyms": 0, "params": []}, "chain": [["power", 3], ["dagger"]]},
+            {"base": {"custom": "corpus_u", "rows": [[[1, 0], [1, 0]], [[0, 0], [1, 0]]], "nsyms": 0, "params": []}, "chain": [["power", 3, "f"], ["controlled", 2]],
+             "order": "rev"}]},
+        {"kind": "session", "runs": [
+            {"base": rx, "chain": [["dagger"], ["controlled", 1], ["power", -2]], "share": "all", "recheck": True},
+            {"base": {"gate": "RY", "params": [["4/5", "3/5"]]}, "chain": [["dagger"], ["controlled", 1], ["power", -2]], "share": "all"},
+            {"base": {"gate": "RX", "params": [["4/5", "-3/5"]]}, "chain": [["dagger"], ["controlled", 1], ["power", -2]], "order": "rev"},
+            {"base": {"gate": "RX", "params": [_near_angle(["4/5", "3/5"])]}, "chain": [["dagger"], ["controlled", 1], ["power", -2]]},
+            {"base": rx, "chain": [["dagger"], ["controlled", 2], ["power", -2]], "share": "all"},
+            {"base": rx, "chain": [["dagger"], ["controlled", 1], ["power", 2]], "share": "all"},
+            {"base": rx, "chain": [["dagger"], ["controlled", 1], ["power", -2]], "share": "all", "reread": True, "recheck": True}]},
+        {"kind": "session", "runs": [
+            {"base": u3, "chain": [["controlled", 1], ["replace", [["3/5", "4/5"], ["12/13", "5/13"], ["3/5", "-4/5"]]], ["dagger"]], "share": "base"},
+            {"base": u3, "chain": [["controlled", 1], ["replace", [["12/13", "5/13"], ["3/5", "4/5"], ["3/5", "-4/5"]]], ["dagger"]], "share": "base"},
+            {"base": u3, "chain": [["controlled", 1], ["replace", [["3/5", "4/5"], ["12/13", "5/13"], ["3/5", "-4/5"]]], ["dagger"]], "share": "base",
+             "order": "rev"}]},
+        # same wrapper name / same custom name, different SIZE
+        {"kind": "session-ext", "runs": [
+            {"base": x, "chain": [["exp"], ["controlled", 1], ["dagger"]], "share": "all", "recheck": True},
+            {"base": {"gate": "CNOT", "params": []}, "chain": [["exp"], ["controlled", 1], ["dagger"]], "decoy": True, "recheck": True},
+            {"base": x, "chain": [["exp"], ["controlled", 1], ["dagger"]], "share": "all", "order": "rev", "recheck": True}]},
+        {"kind": "session", "runs": [
+            {"base": {"custom": "corpus_w", "rows": [[[1, 0], [2, 0]], [[0, 1], [1, 0]]], "nsyms": 0, "params": []},
+             "chain": [["controlled", 1], ["power", -1], ["dagger"]], "recheck": True},
+            {"base": {"custom": "corpus_w", "rows": [[[1, 0], [2, 0], [0, 0], [0, 0]], [[0, 1], [1, 0], [0, 0], [0, 0]],
+                                                     [[0, 0], [0, 0], [1, 0], [0, 0]], [[0, 0], [0, 0], [1, 1], [1, 0]]], "nsyms": 0, "params": []},
+             "chain": [["controlled", 1], ["power", -1], ["dagger"]], "decoy": True, "recheck": True}]},
+        # --- parameter values at which the matrix happens to be self-adjoint, then replaced by generic ones (and back)
+        {"kind": "special", "base": {"custom": "corpus_ph", "rows": [[[1, 0], [0, 0]], [[0, 0], {"sym": 0}]], "nsyms": 1, "params": [{"v": [1, 0]}]},
+         "chain": [["dagger"], ["replace", [{"v": ["3/4", "2/3"]}]], ["dagger"]]},
+        {"kind": "special", "base": {"custom": "corpus_ph", "rows": [[[1, 0], [0, 0]], [[0, 0], {"sym": 0}]], "nsyms": 1, "params": [{"v": [1, 0]}]},
+         "chain": [["replace", [{"v": ["3/4", "2/3"]}]], ["controlled", 1], ["dagger"], ["replace", [{"v": [1, 0]}]]]},
+        {"kind": "special", "base": {"gate": "PHASE", "params": [[0, 1]]}, "chain": [["power", 2], ["dagger"], ["replace", [["4/5", "3/5"]]]]},
+        {"kind": "special", "base": {"gate": "RZ", "params": [[1, 0]]}, "chain": [["dagger"], ["replace", [["4/5", "3/5"]]], ["dagger"]]},
+        # --- exotic but legal: float-typed integer exponents, large exponents, many controls, roots beyond 1/4
+        {"kind": "exotic", "base": rx, "chain": [["power", 2, "f"], ["dagger"], ["power", -1, "f"]]},
+        {"kind": "exotic", "base": cg, "chain": [["power", 0, "f"], ["controlled", 1]]},
+        {"kind": "exotic", "base": rx, "chain": [["power", 12], ["dagger"]]},
+        {"kind": "exotic", "base": s, "chain": [["dagger"], ["power", -9], ["controlled", 1]]},
+        {"kind": "exotic", "base": rx, "chain": [["power", -2], ["controlled", 5], ["dagger"]]},
+        {"kind": "exotic", "base": s, "chain": [["controlled", 2], ["controlled", 3]]},
+        {"kind": "exotic", "base": t, "chain": [["power", "1/8"], ["power", 8]]},
+        {"kind": "exotic", "base": {"gate": "CNOT", "params": []}, "chain": [["power", "1/5"], ["replace", []]]},
         {"kind": "malformed", "base": x, "chain": [["controlled", 0]]},
         {"kind": "malformed", "base": x, "chain": [["controlled", 2], ["controlled", -1], ["dagger"]]},
         {"kind": "malformed", "base": rx, "chain": [["dagger"], ["replace", []], ["controlled", 1]]},
@@ -661,6 +1448,10 @@ def corpus():
 
 
 def generate(rng, tier):
+    return _register(_generate(rng, tier))
+
+
+def _generate(rng, tier):
     big = tier == "thorough"
     cases = []
 
@@ -681,7 +1472,7 @@ def generate(rng, tier):
         depth = rng.choice([0, 1, 2, 2, 3, 3, 4, 4])
         add("chain", base, _random_chain(rng, base, depth, 5 if big and rng.random() < 0.2 else 4, False))
     # chains with exp / fractional powers, at most 2 qubits when the external is applied; no axis angles
-    for _ in range(220 if big else 45):
+    for _ in range(190 if big else 30):
         base = _random_base(rng, rng.choice([1, 1, 2]), axis_prob=0.0, custom_prob=0.2, small_custom=True)
         depth = rng.choice([1, 2, 2, 3, 3, 4])
         add("chain", base, _random_chain(rng, base, depth, 3, True))
@@ -693,6 +1484,17 @@ def generate(rng, tier):
         pre = rng.choice([[], [["controlled", 1]], [["dagger"]], [["power", 2]]])
         post = rng.choice([[], [["controlled", 1]], [["power", 2]]])
         add("chain", b, pre + [["power", f"1/{rng.choice([2, 3, 4])}"], ["dagger"]] + post)
+    # sessions: a seed run, siblings that differ from it in exactly one component, the seed run again -- one process, shared
+    # prototypes / definitions / (per `share`) gate objects; integer-only chains on any base gate
+    for _ in range(170 if big else 30):
+        cases.append(_session(rng, _int_seed_run(rng), False, tier, rng.choice([2, 3, 3, 4])))
+    # the same with exp / non-integer powers, on gates where sympy answers quickly
+    for _ in range(55 if big else 12):
+        cases.append(_session(rng, _ext_seed_run(rng), True, tier, rng.choice([2, 3, 3])))
+    # parameter values at which the matrix happens to be self-adjoint / the identity, replaced by generic ones (and back)
+    cases.extend(_special_cases(rng, tier, 120 if big else 30))
+    # exotic but legal arguments
+    cases.extend(_exotic_cases(rng, tier, *((100, 24, 40) if big else (24, 6, 12))))
     # malformed stream
     for _ in range(120 if big else 24):
         base = _random_base(rng, 2)
@@ -717,27 +1519,44 @@ def generate(rng, tier):
 
 
 def nontrivial(case):
-    return case["kind"] == "chain" and len(case["chain"]) >= 2
+    if is_session(case):
+        return len(case["runs"]) >= 3 and all(len(r["chain"]) >= 1 for r in case["runs"])
+    return case["kind"] in ("chain", "special", "exotic") and len(case["chain"]) >= 2
 
 
 def distribution(cases, outs):
     kinds, depth, nqh = {}, {}, {}
-    timeouts = exterr = mats = 0
+    orders, shares = {}, {}
+    timeouts = exterr = mats = rereads = runs_total = 0
     for c, o in zip(cases, outs):
-        depth[len(c["chain"])] = depth.get(len(c["chain"]), 0) + 1
-        for m in c["chain"]:
-            k = m[0] if m[0] != "power" else ("power-int" if unrat(m[1]).denominator == 1 else "power-frac")
-            kinds[k] = kinds.get(k, 0) + 1
-        for st in (o.get("steps", []) if isinstance(o, dict) else []):
-            m = st.get("m")
-            if isinstance(m, list):
-                mats += 1
-                nqh[st["nq"]] = nqh.get(st["nq"], 0) + 1
-            elif isinstance(m, dict) and m.get("timeout"):
-                timeouts += 1
-            elif isinstance(m, dict) and "exterr" in m:
-                exterr += 1
+        runs = case_runs(c)
+        routs = (o.get("runs", []) if is_session(c) else [o]) if isinstance(o, dict) else []
+        for run in runs:
+            runs_total += 1
+            depth[len(run["chain"])] = depth.get(len(run["chain"]), 0) + 1
+            if is_session(c):
+                orders[run.get("order", "fwd")] = orders.get(run.get("order", "fwd"), 0) + 1
+                shares[run.get("share", "none")] = shares.get(run.get("share", "none"), 0) + 1
+            for m in run["chain"]:
+                k = m[0] if m[0] != "power" else ("power-int" if unrat(m[1]).denominator == 1 else "power-frac")
+                if m[0] == "power" and len(m) > 2:
+                    k += "-as-float"
+                kinds[k] = kinds.get(k, 0) + 1
+        for ro in routs:
+            for st in (ro.get("steps", []) if isinstance(ro, dict) else []):
+                m = st.get("m")
+                if isinstance(m, list):
+                    mats += 1
+                    nqh[st["nq"]] = nqh.get(st["nq"], 0) + 1
+                elif isinstance(m, dict) and m.get("timeout"):
+                    timeouts += 1
+                elif isinstance(m, dict) and "exterr" in m:
+                    exterr += 1
+                if isinstance(st.get("m2"), list):
+                    rereads += 1
     return {"modifier_kinds": kinds, "chain_depth": depth, "matrices_by_num_qubits": nqh, "matrices_evaluated": mats,
+            "runs_total": runs_total, "session_run_order": orders, "session_object_sharing": shares,
+            "matrices_read_twice_after_editing_first_answer": rereads, "matrix_property_calls": _EVALS[0],
             "sympy_timeouts": timeouts, "sympy_external_failures": exterr,
             "branch_ambiguous_matrix_comparisons_skipped": _SUPPRESSED[0],
             "branch_ambiguous_cases": sum(1 for f in _FLAGS.values() if f.get("ambiguous")),
